@@ -209,105 +209,3 @@ Proof.
   - destruct H as [<-|H]; auto. destruct (IH _ H); auto.
 Qed.
 
-(* ---- Loop.__setitem__(int, <fresh tree>) ----------------------------------------------------------------------------------------------------------- *)
-Lemma setitem_int_fresh_inv (mk : M id) h0 r x idx h' res :
-  fresh_maker mk h0 ->
-  Inv h0 r -> reach h0 r x -> (c <- mk ;; loop_setitem_int x idx c) h0 = (h', res) -> ok_result res -> Inv h' r.
-Proof.
-  intros FM I0 Rx H OK.
-  unfold bind at 1 in H. destruct (mk h0) as (h1, [c|e]) eqn:B; pose proof (FM _ _ B) as FMB.
-  2:{ inversion H; subst. destruct OK, FMB; congruence. }
-  destruct FMB as (Lc0 & Pre & hi & SC).
-  destruct (live_get _ _ _ I0 x Rx) as (nx & Gx).
-  pose proof (get_lt _ _ _ Gx) as Lx.
-  assert (Gx1 : get h1 x = Some nx) by (rewrite Pre; auto).
-  destruct (sub_get _ _ _ _ SC) as (nc & Gc).
-  assert (Nxc : x <> c) by lia.
-  unfold loop_setitem_int, node_setitem_int in H.
-  unfold bind at 1 in H. unfold bind at 1 in H. unfold modn at 1 in H.
-  set (ha := upd h1 c (set_parent (Some x))) in *.
-  assert (Gxa : get ha x = Some nx) by (unfold ha; rewrite get_upd_other; auto).
-  unfold bind at 1 in H. unfold getn at 1 in H. rewrite Gxa in H.
-  set (len := Z.of_nat (length (children nx))) in *.
-  set (pv := if (idx <? 0)%Z then (idx + len)%Z else idx) in *.
-  unfold bind at 1 in H. unfold modn at 1 in H.
-  set (hb := upd ha c (set_pidx (Some pv))) in *.
-  assert (Gcb : get hb c = Some (set_pidx (Some pv) (set_parent (Some x) nc))).
-  { unfold hb. apply get_upd_same. unfold ha. now apply get_upd_same. }
-  assert (Oldb : forall y, (y < length h0)%nat -> get hb y = get h0 y).
-  { intros y Ly. unfold hb, ha. rewrite !get_upd_other by lia. auto. }
-  destruct (py_index len idx) as [i|] eqn:PI.
-  2:{ (* IndexError: only the fresh node was touched *)
-      unfold raise in H. inversion H; subst. eapply Inv_ext; eauto. }
-  unfold modn at 1 in H. unfold invalidate_all in H.
-  set (j := Z.to_nat i) in *.
-  assert (Ij : (0 <= i < len)%Z /\ pv = i).
-  { unfold py_index in PI. unfold pv.
-    destruct ((0 <=? idx)%Z && (idx <? len)%Z) eqn:E1.
-    - inversion PI; subst. apply andb_prop in E1 as (A1 & A2). apply Z.leb_le in A1. apply Z.ltb_lt in A2.
-      assert ((i <? 0)%Z = false) by (apply Z.ltb_ge; lia). rewrite H0. lia.
-    - destruct ((- len <=? idx)%Z && (idx <? 0)%Z) eqn:E2; [|discriminate].
-      inversion PI; subst. apply andb_prop in E2 as (A1 & A2). apply Z.leb_le in A1. rewrite A2. apply Z.ltb_lt in A2. lia. }
-  destruct Ij as (Ri & Epv).
-  assert (Lj : (j < length (children nx))%nat) by (unfold j, len in *; lia).
-  assert (Ej : Z.of_nat j = i) by (unfold j; lia).
-  set (new := set_nth (children nx) j c) in *.
-  set (h2 := upd hb x (set_children new)) in *.
-  assert (G1 : get h2 x = Some (set_children new nx)).
-  { unfold h2. apply get_upd_same. unfold hb. rewrite get_upd_other by auto. exact Gxa. }
-  assert (F2 : get h2 c = Some (set_pidx (Some pv) (set_parent (Some x) nc))).
-  { unfold h2. rewrite get_upd_other by auto. exact Gcb. }
-  assert (Old2 : forall y, (y < length h0)%nat -> y <> x -> get h2 y = get h0 y).
-  { intros y Ly N. unfold h2. rewrite get_upd_other by auto. auto. }
-  assert (S2 : Sub h2 (length h0) hi c).
-  { eapply Sub_frame_root; [| |exact SC].
-    - intros y Ry N. unfold h2, hb, ha. rewrite !get_upd_other; auto; lia.
-    - intros n G. assert (n = nc) by congruence. subst n. eexists; split; [exact F2|]. destruct nc; auto. }
-  assert (IE : InvExc h2 r (fun y => reach h2 y x)).
-  { eapply (regraft_inv h0 h2 r x nx new [c] hi I0 Rx Gx); auto.
-    - intros c' [<-|[]]. exists (length h0), hi. split; [lia|]. split; [lia|exact S2].
-    - intros c' HIn. apply In_set_nth in HIn as [->|HIn]; [right; now left|now left].
-    - intros k c' N. unfold new in N. rewrite nth_error_set_nth in N by auto.
-      destruct (Nat.eqb_spec k j) as [->|Nk].
-      + inversion N; subst c'. eexists; split; [exact F2|]. destruct nc; cbn. split; auto. rewrite Epv, Ej. reflexivity.
-      + destruct (inv_links _ _ _ I0 _ _ _ _ Rx Gx N) as (m & Gm & Pm & Im).
-        exists m. split; auto. rewrite Old2; auto; [eapply get_lt; eauto|].
-        intros ->. eapply (rg_x_not_child_of_self h0 r x nx I0 Rx Gx); eauto. eapply nth_error_In; eauto.
-    - intros y n0 HIn K G. exists (pidx n0).
-      assert (y <> x) by (intros ->; eapply (rg_x_not_child_of_self h0 r x nx I0 Rx Gx); eauto).
-      rewrite Old2; auto; [|eapply get_lt; eauto]. rewrite G. destruct n0; reflexivity. }
-  assert (Rx2 : reach h2 r x).
-  { apply (rg_reach_to_x h0 h2 r x nx new [c] hi I0 Rx Gx); [| | | |apply reach_refl|exact Rx|apply reach_refl].
-    - intros c' [<-|[]]. exists (length h0), hi. split; [lia|]. split; [lia|exact S2].
-    - intros c' HIn. apply In_set_nth in HIn as [->|HIn]; [right; now left|now left].
-    - intros y Ly N NI. apply Old2; auto.
-    - intros y n0 HIn K G. exists (pidx n0).
-      assert (y <> x) by (intros ->; eapply (rg_x_not_child_of_self h0 r x nx I0 Rx Gx); eauto).
-      rewrite Old2; auto; [|eapply get_lt; eauto]. rewrite G. destruct n0; reflexivity. }
-  rewrite fueled_eq in H.
-  destruct (invalidate _ x None h2) as (h3, [[]|e]) eqn:W; inversion H; subst.
-  2:{ destruct OK as (N1 & N2). destruct (invalidate_none_err _ _ _ _ _ W); congruence. }
-  eapply invalidate_none_spec; eauto.
-Qed.
-
-(* ---- histories over the operations proved so far ----------------------------------------------------------------------------------------------------- *)
-Definition proved_op'' (o : op) : bool :=
-  proved_op' o || match o with OSetInt _ _ _ => true | _ => false end.
-
-Lemma step_partial'' s o s' out :
-  sInv s -> proved_op'' o = true -> step s o = (s', out) -> out_ok out -> sInv s'.
-Proof.
-  intros I PO H OK. unfold proved_op'' in PO. apply orb_prop in PO as [PO|PO]; [eapply step_partial'; eauto|].
-  destruct o; try discriminate; cbn in H.
-  eapply run_at_inv; eauto. intros x h' res Rx Hk Okr. cbv beta in Hk.
-  eapply setitem_int_fresh_inv; [apply build_fresh|exact I|exact Rx|exact Hk|exact Okr].
-Qed.
-
-Lemma history_partial'' : forall ops s,
-  sInv s -> forallb proved_op'' ops = true -> run_ok s ops -> sInv (run s ops).
-Proof.
-  induction ops as [|o ops IH]; intros s I P OK; cbn in *; auto.
-  apply andb_prop in P as (P1 & P2). destruct OK as (O1 & O2).
-  destruct (step s o) as (s', out) eqn:St. cbn in *.
-  apply IH; auto. eapply step_partial''; eauto.
-Qed.
